@@ -201,6 +201,31 @@ func c06Case(r *core.Run, idx int, rng *rand.Rand) {
 		if idx%5 == 2 {
 			withUnaskedNames(e, r)
 		}
+		if idx%6 == 1 {
+			// the judged request is preceded by refused messages that begin with a complete, perfectly valid request of
+			// the same service provider: their DEFLATE stream breaks off behind it, or inflates beyond any limit.
+			// Nothing of a refused message may be what the provider looks at afterwards
+			for k := 0; k < 1+rng.Intn(3); k++ {
+				f := validAuthn(rng, c.SPD)
+				f.ID = "leftover-" + randHex(rng, 6)
+				doc := f.XML(rng)
+				var payload string
+				if rng.Intn(2) == 0 {
+					payload = spsim.B64(spsim.DeflateUnfinished([]byte(doc + strings.Repeat(" ", rng.Intn(50000)))))
+				} else {
+					payload = bomb(doc, "", ' ', 12<<20)
+				}
+				var pc *env.Call
+				if rng.Intn(2) == 0 {
+					pc = e.Do(env.Req{Path: env.PathSSO, Query: "SAMLRequest=" + url.QueryEscape(payload) + "&RelayState=leftover", Host: c.Host})
+				} else {
+					pc = e.Do(env.Req{Method: "POST", Path: env.PathSSO, Body: spsim.FormBody("SAMLRequest", payload, "SAMLEncoding", spsim.EncDeflate, "RelayState", "leftover"), Host: c.Host})
+				}
+				if pc.Panic == "" && !pc.Accepted() {
+					r.Count("preceded_by_a_refused_message_that_begins_with_a_valid_request", 1)
+				}
+			}
+		}
 		if !keyFault {
 			return
 		}
